@@ -91,24 +91,36 @@ def n1(v):
 
 
 def view(st: State) -> dict:
-    """what the public read-only properties of the State report (bound to the model by TraceOps!ViewOK)"""
+    """what the public read-only properties of the State report (bound to the model by TraceOps!ViewOK).  A property that
+    raises is recorded as -99: TLC then reports the disagreement (reading a property never raises in the model)"""
+    def safe(fn, conv):
+        try:
+            return conv(fn())
+        except BaseException:  # noqa: BLE001
+            return -99
+
     def c1(v):
         return -1 if v is None else chip(v)
 
     def p1(v):
         return 0 if v is None else v + 1
     v = {
-        'actor': p1(st.actor_index), 'turn': p1(st.turn_index), 'call': c1(st.checking_or_calling_amount),
-        'minto': c1(st.min_completion_betting_or_raising_to_amount), 'potto': c1(st.pot_completion_betting_or_raising_to_amount),
-        'maxto': c1(st.max_completion_betting_or_raising_to_amount),
-        'dealee': p1(st.hole_dealee_index), 'drawer': p1(st.stander_pat_or_discarder_index), 'shower': p1(st.showdown_index),
-        'boardcount': int(st.board_count), 'boards': [pk.cards_int(st.get_board_cards(b)) for b in st.board_indices],
+        'actor': safe(lambda: st.actor_index, p1), 'turn': safe(lambda: st.turn_index, p1),
+        'call': safe(lambda: st.checking_or_calling_amount, c1),
+        'minto': safe(lambda: st.min_completion_betting_or_raising_to_amount, c1),
+        'potto': safe(lambda: st.pot_completion_betting_or_raising_to_amount, c1),
+        'maxto': safe(lambda: st.max_completion_betting_or_raising_to_amount, c1),
+        'dealee': safe(lambda: st.hole_dealee_index, p1), 'drawer': safe(lambda: st.stander_pat_or_discarder_index, p1),
+        'shower': safe(lambda: st.showdown_index, p1),
+        'boardcount': safe(lambda: st.board_count, int),
+        'boards': safe(lambda: [pk.cards_int(st.get_board_cards(b)) for b in st.board_indices], list),
         'hands': [], 'canwin': [],
     }
     if st.showdown_indices or any(st.hand_killing_statuses):
         # evaluated hands exist / do not exist (per player, board, hand type), and who can still win: at showdowns only
-        v['hands'] = [[[st.get_hand(i, b, t) is not None for t in st.hand_type_indices] for b in st.board_indices] for i in st.player_indices]
-        v['canwin'] = [bool(st.statuses[i] and st.can_win_now(i)) for i in st.player_indices]
+        v['hands'] = safe(lambda: [[[st.get_hand(i, b, t) is not None for t in st.hand_type_indices] for b in st.board_indices]
+                                   for i in st.player_indices], list)
+        v['canwin'] = safe(lambda: [bool(st.statuses[i] and st.can_win_now(i)) for i in st.player_indices], list)
     return v
 
 
